@@ -571,6 +571,19 @@ func runC13(c *vk.Ctx) {
 	}
 	c.EvalN(evals, nontrivial)
 	c.Count("illegal_for_client_skipped", illegal)
-	c.Sample(map[string]interface{}{"sequence": "Start Put(k1) Get(never) Stop Close", "faults": "every single and every pair of primitive calls"})
+	if c.Shard == 0 {
+		// an actual case of this run, with the driver call log the monitor saw
+		seq := []int{opStart, opPutK1, opGetNever, opStop}
+		_, conn := execC13(seq, []int{2}, true)
+		var log []string
+		for _, e := range conn.Log {
+			f := ""
+			if e.Failed {
+				f = " FAILED"
+			}
+			log = append(log, fmt.Sprintf("#%d %s tx%d%s", e.Seq, e.Kind, e.Tx, f))
+		}
+		c.Sample(map[string]interface{}{"sequence": seqString(seq) + " Close", "failing_primitives": []int{2}, "driver_log": log})
+	}
 	_ = sort.Ints
 }
